@@ -28,7 +28,7 @@ TypeVecs == IF Kind = "bw" THEN {tv \in [1..Len(Secs) -> {1, 2, 3}] : \A i \in 1
 Dom(f) == CASE f = "endian" -> {"little", "big"} [] f = "compress" -> {0, 1} [] f = "version" -> {1, 2, 3, 4}
             [] f = "summary" -> {0, 1} [] f = "ctbs" -> {1, 2, 256} [] f = "idperm" -> {0, 1} [] f = "ctfirst" -> {0, 1}
             [] f = "ctorder" -> {"bfs", "dfs"} [] f = "rbs" -> {2, 3, 256} [] f = "order" -> {"bfs", "dfs", "leaves_first", "reverse_levels"}
-            [] f = "gap" -> {0, 3} [] f = "zoom" -> {0, 1} [] f = "types" -> TypeVecs
+            [] f = "gap" -> {0, 3} [] f = "zoom" -> {0, 1, 2} [] f = "types" -> TypeVecs
 Init == lay = <<>> /\ step = 1
 Next == /\ step <= Len(Fields)
         /\ \E v \in Dom(Fields[step]) : lay' = Append(lay, v)
